@@ -11,9 +11,7 @@ The window rule itself is `Props/C09.lean`.  Here: what the three state machines
 namespace ErgoVerif.Props.C09
 open ErgoVerif.Sup ErgoVerif.Spec.Sup ErgoVerif.Window
 
-/-- the closed system of a simple-one-for-one supervisor (fuel 3 = more than the loop ever needs) -/
-def sofoStep := step sofoMachine 3
-def sofoBoot (sp : SupSpec) : Loop SOFO := boot sofoMachine 3 (SOFO.init {} sp)
+/-- reachable configurations of the closed simple-one-for-one system (`Model/SupLoop.lean`) -/
 def SofoReach (sp : SupSpec) (c : Loop SOFO) : Prop := ∃ ls, run sofoStep (sofoBoot sp) ls = some c
 
 theorem sofoBoot_inv (sp : SupSpec) : SOFO.Inv (sofoBoot sp) := by
